@@ -16,6 +16,7 @@ component; `received cfg s cid es` = messages the SDK receives from the API for 
 stream is open); `msgsOf cid es` = all messages the API produces for `cid`.
 -/
 import Frequenz.Lemmas.DataSourcing
+import Frequenz.Lemmas.DataSourcingTie
 
 open DataSourcing Extracted.DataSourcing
 
@@ -390,3 +391,53 @@ example : delivered a (trace cfg (final cfg State.init pre0) back)
     = [⟨5, some (11/2)⟩, ⟨5, some (11/2)⟩, ⟨2, some (5/2)⟩, ⟨5, some (11/2)⟩] := by decide +kernel
 
 end C20_examples
+
+/-! ## 8. The model is the source (appended)
+
+`Frequenz.Extracted.DataSourcingLoops` is a machine translation — regenerated from the current text of
+`microgrid_api_source.py` / `data_sourcing.py` on every run — of `add_metric` (with `_update_streams`), of the streaming
+method up to its `async for` (`_check_requested_component_and_metrics` and its per-category helpers,
+`_get_metric_senders`), of one iteration of that loop (the fan-out closure, the sending-task set) and of
+`DataSourcingActor._run`, as functions over the object state `Src` (the three dictionaries of the source).
+`DataSourcingTie.srcStep` only says WHICH of them an event runs (`request` → the entry point, `start` → the prologue of a
+created task, `take` → one loop iteration on the oldest buffered message, `message` → the API appends to the receiver).
+The hand-written `step` / `exec`, about which every theorem above is stated, equal that translation read through
+`DataSourcingTie.abs`: for every schedule from the initial state, and event by event on every well-formed source state
+(`WF`, an invariant proved from the translation itself: no task is replaced while alive, a task exists only for a
+component with registrations and carries that component's id and category, every registered metric is provided by the
+category, a running task's receiver exists). -/
+
+section ModelIsSource
+open Extracted.DataSourcingLoops DataSourcingTie
+
+theorem C20_model_is_source :
+    (∀ (cfg : Config) (isDone : Msg → Bool) (es : List Event),
+      exec cfg State.init es
+        = (abs (srcExec cfg isDone Src.init es).1, (srcExec cfg isDone Src.init es).2)) ∧
+    (∀ (cfg : Config) (isDone : Msg → Bool) (σ : Src) (e : Event), WF cfg σ →
+      step cfg (abs σ) e = (abs (srcStep cfg isDone σ e).1, (srcStep cfg isDone σ e).2) ∧
+      WF cfg (srcStep cfg isDone σ e).1) ∧
+    (∀ cfg : Config, WF cfg Src.init) ∧ abs Src.init = State.init ∧
+    (∀ (cfg : Config) (σ : Src) (r : Chan), ∃ σ', addMetric cfg.category σ r = .ok (σ', [], ())) ∧
+    (∀ (cfg : Config) (σ : Src) (cid : Nat) (cat : Category), WF cfg σ →
+      Dict.contains σ.reqs cid = true → cfg.category cid = some cat →
+      handlePrologue σ cid cat
+        = .ok (⟨σ.reqs, openedReceivers σ cid, σ.tasks, σ.leaked⟩, [],
+            ((Dict.getD σ.reqs cid []).map (fun x => ((cat, x.1), x.2)), []))) ∧
+    (∀ (cfg : Config) (isDone : Msg → Bool) (σ : Src) (rs : List Chan),
+      actorRun cfg.category σ rs = .ok (srcExec cfg isDone σ (rs.map Event.request)).1) := by
+  refine ⟨fun cfg isDone es => ?_, fun cfg isDone σ e h => ⟨step_eq cfg isDone σ e h, wf_step cfg isDone σ e h⟩,
+    WF.init, abs_init, addMetric_ok, handlePrologue_spec, actorRun_eq⟩
+  have h := (exec_eq cfg isDone Src.init es (WF.init cfg)).1
+  rwa [abs_init] at h
+
+-- non-vacuity: the translation, run on the example schedule above, registers, restarts, buffers and delivers
+example : delivered C20_examples.a
+      (srcExec C20_examples.cfg (fun _ => false) Src.init (C20_examples.pre ++ C20_examples.post)).2
+    = [⟨1, some (3/2)⟩, ⟨2, some (5/2)⟩, ⟨3, some (7/2)⟩] := by decide +kernel
+example : (srcExec C20_examples.cfg (fun _ => false) Src.init C20_examples.pre).1.reqs
+      = [(4, [("ACTIVE_POWER_PHASE_2", [C20_examples.a])])] ∧
+    ((srcExec C20_examples.cfg (fun _ => false) Src.init C20_examples.pre).1.receivers.map (·.2.length)) = [1] := by
+  decide +kernel
+
+end ModelIsSource
